@@ -23,6 +23,7 @@ Directives
   //@@ r6 K                          desugar for-loop K (rewrite R6)
   //@@ before /REGEX/[#KofN]         text inserted before the unique match in the fn text (or the K-th of exactly N matches)
   //@@ after /REGEX/                 text inserted after the unique match
+  //@@ closure K                     Verus closure signature (`-> (r: T) ensures ...`) for the K-th closure of the fn (source order)
   //@@ body                          text inserted right after the body's `{`
   //@@ replace /REGEX/ WHY           ad-hoc declared rewrite: match replaced by the text block
   //@@ end
@@ -320,6 +321,27 @@ def render_fn(fs, out, unit, log):
             r2_lets.append(f" let {pat} = {nm};")
             log["rewrites"].append({"rule": "R2", "fn": fs.path, "from": pat, "to": nm})
 
+    # R2c: closures with pattern parameters `|PAT| BODY` -> `|__cK| { let PAT = __cK; BODY }` (Verus accepts only variables);
+    # `//@@ closure K` parts put a Verus closure signature (`-> (r: T) requires .. ensures ..`) between `|params|` and the body
+    closure_specs = {int(arg.split()[0]): (ptxt, tline) for kind, arg, ptxt, tline in fs.parts if kind == "closure"}
+    for ci, cl in enumerate(rec.get("closures", [])):
+        ro = {"type": "rewrite", "rule": "R2c", "fn": fs.path, "unit": unit}
+        lets = ""
+        for pj, (a0, b0) in enumerate(cl["pats"]):
+            a, b = c(a0), c(b0)
+            nm = f"__c{ci}_{pj}"
+            ins(a, nm, ro, dl=b - a)
+            lets += f"let {text[a:b]} = {nm}; "
+            log["rewrites"].append({"rule": "R2c", "fn": fs.path, "from": text[a:b], "to": nm})
+        spec = closure_specs.pop(ci, None)
+        if spec:
+            ins(c(cl["body"][0]), " " + spec[0].strip() + " ", {"type": "contract", "fn": fs.path, "unit": unit, "part": f"closure {ci}", "tline": spec[1]}, prio=5)
+        if lets or (spec and not cl["block"]):
+            ins(c(cl["body"][0]), "{ " + lets, ro, prio=4)
+            ins(c(cl["body"][1]), " }", ro, prio=-4)
+    if closure_specs:
+        raise LostAnchor(f"fn {fs.path}: closure(s) {sorted(closure_specs)} not found ({len(rec.get('closures', []))} closures)")
+
     if fs.opts.get("external_body"):
         # body not verified by Verus (declared; counted as trusted unless a Kani harness discharges the contract)
         log["trusted"].append(f"external_body on real fn {fs.path}: contract assumed in Verus" + (f" (discharged by Kani harness {fs.opts['by']})" if fs.opts.get("by") else ""))
@@ -362,6 +384,8 @@ def render_fn(fs, out, unit, log):
             ins(lb, f"{{ match {itn}.next() {{ None => break, Some({pat}) => ", ro, prio=3)
             ins(le, " } } }", ro, prio=-2)
             log["rewrites"].append({"rule": "R6", "fn": fs.path, "loop": k, "iter": expr})
+        elif kind == "closure":
+            pass  # handled below
         elif kind in ("before", "after", "replace"):
             m = re.match(r"/(.+)/(?:#(\d+)of(\d+))?\s*(.*)$", arg)
             if not m:
@@ -456,6 +480,10 @@ def render_fn(fs, out, unit, log):
     )
 
 
+def norm_ws(x):
+    return re.sub(r"\s+", " ", x).strip()
+
+
 def build(unit_dir, out_path):
     unit = os.path.basename(unit_dir.rstrip("/"))
     tpl = os.path.join(unit_dir, "unit.rs")
@@ -480,6 +508,30 @@ def build(unit_dir, out_path):
             t = src[st : rec["end"]].decode("utf-8")
             if o.get("strip_field_docs", True):
                 pass
+            if o.get("cfg_off"):
+                # R8 (additive option `cfg_off=<feature>`): drop variants/fields gated by `#[cfg(feature = "<feature>")]`, exactly what
+                # rustc does when the feature is off (the verified configuration = default features). Needed because the verus! macro
+                # generates variant helpers before cfg-stripping ("no variant `Art` for this datatype").
+                feat = re.escape(o["cfg_off"])
+                while True:
+                    m = re.search(r'[ \t]*#\[cfg\(feature\s*=\s*"' + feat + r'"\)\]\s*', t)
+                    if not m:
+                        break
+                    j, depth = m.end(), 0
+                    while j < len(t):
+                        ch = t[j]
+                        if ch in "([{":
+                            depth += 1
+                        elif ch in ")]}":
+                            if depth == 0:
+                                break
+                            depth -= 1
+                        elif ch == "," and depth == 0:
+                            j += 1
+                            break
+                        j += 1
+                    log["rewrites"].append({"rule": "R8", "fn": path, "from": norm_ws(t[m.start():j]), "to": "", "why": f"feature {o['cfg_off']} is off in the verified configuration"})
+                    t = t[: m.start()] + t[j:]
             out.add(t + "\n", {"type": "src", "file": relfile, "fn": path, "unit": unit, "src_byte": st, "item": True})
             log["items"].append({"file": relfile, "item": path, "kind": kind, "sha256": hashlib.sha256(t.encode()).hexdigest()})
         elif k == "impl":
